@@ -393,15 +393,18 @@ def _check_for_modified_notes(
         if note.modify_date != today and note_has_changed:
             note.modify_date = today
             modify_short_date = zdt.to_short_date_spec(dt.date.today())
-            # If the modify date is the same as the create date, then no modify
-            # date spec should exist yet...
-            assert old_note is not None
-            if old_note.modify_date == note.create_date:
-                old_body = f"{note.body.lstrip()}"
-            # Otherwise, we need to remove the old modify date spec before
-            # adding the new one.
-            else:
-                old_body = " ".join(note.body.lstrip().split(" ")[1:])
+            # If the note's text starts with an old modify date spec (i.e. a
+            # YYMMDD date directly in front of the ZID), then we need to
+            # remove it before adding the new one. We look at the text itself
+            # (and NOT at the old DB state) since the user may have added or
+            # removed the modify date spec by hand.
+            old_body = note.body.lstrip()
+            first_word, _, rest_of_body = old_body.partition(" ")
+            assert note.zid is not None
+            if zdt.is_short_date_spec(first_word) and rest_of_body.lstrip(
+                " "
+            ).startswith(note.zid):
+                old_body = rest_of_body.lstrip(" ")
             note.body = f"{modify_short_date} {old_body}"
             modified_notes.append(note)
     if modified_notes:
